@@ -108,7 +108,7 @@ def data_strategy(draw: Any, allow_empty: bool = False) -> dict[str, Any]:
     if d(st.integers(0, 3)) == 0:
         data["z"] = None
     data["a b"] = data["a-b"]  # only reachable as ['a b'] (Cfg.spaced_names)
-    data.update({"empty": data["s"], "blank": data["m"], "for": data["t"], "true": data["m"]})
+    data.update({"empty": data["s"], "blank": data["m"], "for": data["t"], "true": data["m"], "continue": 1})
     return data
 
 
@@ -442,6 +442,8 @@ class Gen:
         o = self.pick(opts)
         kind, name = o[0], o[1]
         if kind == "iroot":
+            if self.p(0.2):
+                return ["path", self.i(0, 2), [] if self.p(0.6) else [["n", self.pick(["size", "a"])]]]
             return ["path", ["path", name, []], [] if self.p(0.7) else [["n", "size"]]]
         if kind == "root":
             return ["path", name, []]
@@ -871,6 +873,8 @@ class Gen:
                 if self.p(0.3):
                     if c.offset_continue and self.p(0.3) and k == "for":
                         s["offset"] = "continue"
+                    elif c.spaced_names and self.p(0.15):
+                        s["offset"] = ["path", "continue", []]  # a variable that is called `continue`
                     else:
                         s["offset"] = self.safe_prim("int") if self.p(0.3) else ["int", self.i(0, 3)]
                 if k == "tablerow" and self.p(0.6):
